@@ -273,6 +273,14 @@ func c15JudgeLine(c *ev.Check, m *c15Map, sn Seen, in, nf, f *jt.Node, names map
 					c.Violation("duplicate-key-after-renaming|"+opSig(path), fmt.Sprintf("two sibling keys at %s come out as the same key %q", jt.PathStr(path), trunc(ok, 60)), replayOf(sn, nil))
 				}
 				seen[ok] = true
+				if strings.HasPrefix(k, "$") {
+					// operators and extended-JSON wrappers are not user-defined field names: a value is
+					// "redacted as without the flag" only if the operator keys inside it are still there
+					c.Count("operator_keys_checked", 1)
+					if ok != k {
+						c.Violation("operator-key-renamed|"+k, fmt.Sprintf("the operator / wrapper key %s at %s comes out as %q with --redactFieldNames: it is not a user-defined field name", k, jt.PathStr(path), trunc(ok, 60)), replayOf(sn, nil))
+					}
+				}
 				z := inZone || (len(path) == 2 && c15Zones[k])
 				if z && inZone && c15Planted(k, names) {
 					m.expect(c, k, ok, "key:"+zoneOf(path), sn)
